@@ -449,10 +449,12 @@ package modbus
 
 //@ func batchToRequests(connectionGroup []builderSlotGroup) (res []requestBatch)
 //@   requires forall j in 0..len(connectionGroup) :: groupOK(connectionGroup[j])
+//@   requires forall j in 0..len(connectionGroup) :: connectionGroup[j].isForCoils == connectionGroup[0].isForCoils
 //@   safety[C06,C10]
 //@   modifies backing(connectionGroup[0].slots), sortCalls
 //@   ensures[C06] forall j in 0..len(res) :: batchOK(res[j])
 //@   ensures[C06] len(res) >= len(connectionGroup)
+//@   ensures[C06] forall j in 0..len(res) :: res[j].Quantity != 0 ==> (res[j].fields[0].Type == FieldTypeCoil) == connectionGroup[0].isForCoils
 //@   ensures[C06] (forall j in 0..len(connectionGroup) :: old(fitsOne(connectionGroup[j]))) ==> len(res) == len(connectionGroup)
 //@   loop 0
 //@     forget
@@ -460,18 +462,24 @@ package modbus
 //@     invariant -1 <= rangeindex && rangeindex < len(connectionGroup) && len(result) >= rangeindex+1
 //@     invariant forall j in 0..len(result) :: batchOK(result[j])
 //@     invariant forall j in rangeindex+1..len(connectionGroup) :: groupOK(connectionGroup[j])
-//@     invariant forall j in rangeindex+1..len(connectionGroup) :: old(fitsOne(connectionGroup[j])) ==> fitsOne(connectionGroup[j])
-//@     invariant (forall j in 0..rangeindex+1 :: old(fitsOne(connectionGroup[j]))) ==> len(result) == rangeindex+1
+//@     invariant forall j in 0..len(connectionGroup) :: connectionGroup[j].isForCoils == connectionGroup[0].isForCoils
+//@     invariant forall j in 0..len(result) :: result[j].Quantity != 0 ==> (result[j].fields[0].Type == FieldTypeCoil) == connectionGroup[0].isForCoils
+//@     ghost allFit := forall j in 0..len(connectionGroup) :: fitsOne(connectionGroup[j])
+//@     invariant allFit ==> forall j in rangeindex+1..len(connectionGroup) :: fitsOne(connectionGroup[j])
+//@     invariant allFit ==> len(result) == rangeindex+1
 //@   loop 1
 //@     forget
 //@     modifies batch
 //@     ghost r0 := len(result)
 //@     invariant -1 <= rangeindex && rangeindex < len(slotGroup.slots) && len(result) >= r0 && len(slotGroup.slots) >= 1
 //@     invariant forall j in outer(rangeindex)+2..len(connectionGroup) :: groupOK(connectionGroup[j])
-//@     invariant forall j in outer(rangeindex)+2..len(connectionGroup) :: old(fitsOne(connectionGroup[j])) ==> fitsOne(connectionGroup[j])
-//@     invariant (forall j in 0..outer(rangeindex)+1 :: old(fitsOne(connectionGroup[j]))) ==> r0 == outer(rangeindex)+1
-//@     invariant old(fitsOne(connectionGroup[outer(rangeindex)+1])) ==> fitsOne(slotGroup) && len(result) == r0
-//@     invariant old(fitsOne(connectionGroup[outer(rangeindex)+1])) && rangeindex >= 0 ==> forall k in 0..len(slotGroup.slots) :: int(slotGroup.slots[k].address) + int(slotGroup.slots[k].size) - int(firstAddress) <= lim(slotGroup.isForCoils)
+//@     invariant forall j in 0..len(connectionGroup) :: connectionGroup[j].isForCoils == connectionGroup[0].isForCoils
+//@     invariant slotGroup.isForCoils == connectionGroup[0].isForCoils
+//@     invariant forall j in 0..len(result) :: result[j].Quantity != 0 ==> (result[j].fields[0].Type == FieldTypeCoil) == connectionGroup[0].isForCoils
+//@     invariant allFit ==> forall j in outer(rangeindex)+2..len(connectionGroup) :: fitsOne(connectionGroup[j])
+//@     invariant allFit ==> r0 == outer(rangeindex)+1
+//@     invariant allFit ==> fitsOne(slotGroup) && len(result) == r0
+//@     invariant allFit && rangeindex >= 0 ==> forall k in 0..len(slotGroup.slots) :: int(slotGroup.slots[k].address) + int(slotGroup.slots[k].size) - int(firstAddress) <= lim(slotGroup.isForCoils)
 //@     invariant forall k in 0..len(slotGroup.slots)-1 :: slotGroup.slots[k].address <= slotGroup.slots[k+1].address
 //@     invariant forall k in 0..len(slotGroup.slots) :: slotOK(slotGroup, k)
 //@     invariant isFirstSeen <==> rangeindex >= 0
